@@ -46,6 +46,7 @@ type Sym struct {
 	// cells.go: running-offset cells worked on by closures / cursor methods
 	groups map[*ssa.Alloc]*cellGroup
 	over   map[symKey]lin.Form // loads of a cell inside a replayed helper activation
+	loops  map[symLoopKey]*Loop
 }
 
 // OfIn / LenOfIn evaluate a value that lives in an inlined helper's frame:
@@ -247,6 +248,10 @@ func (z *Sym) of(v ssa.Value, d int) lin.Form {
 			// a field of a local struct value written once (cells.go)
 			if e, ef, ok := fieldLoad(x, z.frame); ok {
 				return z.in(ef, func() lin.Form { return z.of(e, d+1) })
+			}
+			// an element of an integer table filled by a counted loop (cells.go)
+			if f, ok := z.intTableLoad(x); ok {
+				return f
 			}
 		}
 		if x.Op == token.MUL && z.LoadRep != nil {
